@@ -303,10 +303,13 @@ def tasks(tier):
         for prefix, suffix, extra in (("", ".pt", ["notes.txt"]), ("p_", ".pt", ["q_x.pt", "notes.txt"]), ("", "", [])):
             ts.append(task(PROP, M_, "AliTokenH", Ts=Ts, labels=3, prefix=prefix, suffix=suffix, extra=extra, nvalidate=1))
     ts.append(task(PROP, M_, "ErrorRateCmdH", R=[2, 1], H=[1, 2], toks=[0, 1], batch_sizes=[1, 2], nvalidate=1))
-    ts.append(task(PROP, M_, "ErrorRateCmdH", R=[2, 1], H=[2, 1], toks=[0, 1, 2], batch_sizes=[1, 100], ignore=[2], per_utt=True, nvalidate=1))
-    ts.append(task(PROP, M_, "ErrorRateCmdH", R=[2, 2], H=[1, 1], toks=[0, 1, 2], batch_sizes=[2, 1], replace=[(2, 1)], distances=True, nvalidate=1))
+    # --replace is processed before --ignore: 2 -> 1 makes the ignore entry 2 moot; 1 -> 2 sends 1 into the ignored id
+    ts.append(task(PROP, M_, "ErrorRateCmdH", R=[2, 1], H=[2, 1], toks=[0, 1, 2], batch_sizes=[1, 100], ignore=[2], replace=[(2, 1)], per_utt=True, nvalidate=1))
+    ts.append(task(PROP, M_, "ErrorRateCmdH", R=[2, 2], H=[1, 1], toks=[0, 1, 2], batch_sizes=[2, 1], ignore=[2], replace=[(1, 2)], distances=True, nvalidate=1))
     if not q:
         ts.append(task(PROP, M_, "ErrorRateCmdH", R=[2, 1, 1], H=[1, 2, 1], toks=[0, 1], batch_sizes=[1, 2, 3], nvalidate=1))
         ts.append(task(PROP, M_, "ErrorRateCmdH", R=[3, 1], H=[2, 2], toks=[0, 1, 2], batch_sizes=[1, 2], ignore=[0], replace=[(2, 0)], nvalidate=1))
         ts.append(task(PROP, M_, "ErrorRateCmdH", R=[2, 2], H=[3, 0], toks=[0, 1], batch_sizes=[1, 2], per_utt=True, distances=True, nvalidate=1))
+        ts.append(task(PROP, M_, "ErrorRateCmdH", R=[2, 1], H=[2, 1], toks=[0, 1, 2], batch_sizes=[1, 100], ignore=[2], per_utt=True, nvalidate=1))
+        ts.append(task(PROP, M_, "ErrorRateCmdH", R=[2, 2], H=[1, 1], toks=[0, 1, 2], batch_sizes=[2, 1], replace=[(2, 1)], distances=True, nvalidate=1))
     return ts
